@@ -219,6 +219,9 @@ func convertVMFunctionToTypeContext(ctx context.Context, rv reflect.Value, rt re
 		// Go function wants more than one return value
 		// make sure we have a slice/array with enought values
 
+		if rv.Kind() == reflect.Interface && !rv.IsNil() {
+			rv = rv.Elem()
+		}
 		if rv.Kind() != reflect.Slice && rv.Kind() != reflect.Array {
 			panic(fmt.Sprintf("function wants %v return values but received %v", rt.NumOut(), rv.Kind().String()))
 		}
